@@ -34,7 +34,7 @@ int main(int argc, char** argv) {
                         nu, nq, mp, mv, ma, cs.types[0], cs.types[1], cs.types[2], cs.types[3]);
             std::printf("TINY %a\n", (double)TinyReal);
             std::printf("PAR"); pReals(d.par); std::printf("\n");
-            pvec("LAM", lam); pvec("UU", uu);
+            pvec("LAM", lam); pvec("UU", uu); pvec("UDOT", udot);
             if (kind <= K_NOSLIP) {
                 int anc = c.getAncestorMobilizedBody().getMobilizedBodyIndex();
                 const MobilizedBody& A = m.getMobilizedBody(MobilizedBodyIndex(anc));
@@ -77,11 +77,13 @@ int main(int argc, char** argv) {
             Vector Gtl; m.multiplyByGTranspose(s, lam, Gtl); pvec("OUT GTL", Gtl);
             Matrix Gt; m.calcGTranspose(s, Gt); Vector Gtl2 = Gt * lam; pvec("OUT GTMATL", Gtl2);
             Vector bias; m.calcBiasForMultiplyByG(s, bias); pvec("OUT GBIAS", bias);
+            Vector abias; m.calcBiasForAccelerationConstraints(s, abias); pvec("OUT ABIAS", abias);
+            { Vector z(nu, Real(0)), e0; m.calcConstraintAccelerationErrors(s, z, e0); pvec("OUT AERR0", e0); }
             if (mp) {
                 Matrix Pq; m.calcPq(s, Pq);
                 for (int j = 0; j < nq; ++j) { std::printf("OUT PQCOL %d", j); for (int i = 0; i < Pq.nrow(); ++i) std::printf(" %a", Pq(i, j)); std::printf("\n"); }
                 Vector qlike(nq); for (int i = 0; i < nq; ++i) qlike[i] = s.getQDot()[i];
-                Vector PqQ; m.multiplyByPq(s, qlike, PqQ); pvec("OUT PQQDOT", PqQ);
+                Vector PqQ; m.multiplyByPq(s, qlike, PqQ); pvec("OUT PQQDOT", PqQ); pvec("OUT QDOT", qlike);
                 Vector lamp(mp); for (int i = 0; i < mp; ++i) lamp[i] = lam[i];
                 Vector Pqtl; m.multiplyByPqTranspose(s, lamp, Pqtl); pvec("OUT PQTL", Pqtl);
             }
